@@ -443,6 +443,9 @@ func flagValue(r *rand.Rand, letter string, env *ruleEnv) (string, string) {
 		if r.Intn(4) == 0 {
 			return "/tmp/dir with spaces/f", "value-with-space"
 		}
+		if r.Intn(6) == 0 {
+			return "", "empty-value" // an empty argument is an argument: a second -w after it is a repeated -w
+		}
 		return []string{"/etc/passwd", "/tmp", "/var/log/x.log"}[r.Intn(3)], "plain"
 	case "p":
 		return []string{"r", "w", "x", "a", "rw", "wa", "rwxa", "ar", "rwa", ""}[r.Intn(10)], "plain"
